@@ -77,6 +77,10 @@ func VrfC14Peerstore() {
 		}
 	}
 	path2 := filepath.Join(dir, "peerstore2")
+	// the file may exist already, from an earlier run with more peers
+	if vrf_choice("older_longer_file_exists", 2) == 1 {
+		vrfPutFile(path2, strings.Join([]string{vrfLines[0], vrfLines[1], vrfLines[2], vrfLines[1]}, "\n")+"\n")
+	}
 	pm2 := New(context.Background(), nil, path2)
 	vrf_assert(pm2.SavePeerstore(infos) == nil, "C14.peerstore.save-ok")
 	back := pm2.LoadPeerstore()
